@@ -456,7 +456,17 @@ def variant(rng, k):
         seq = bytes(rng.choice(b"ACGTN") for _ in range(rng.randint(1, 40)))
         w = rng.choice([5, 10, 60])
         recs.append(b">" + nm + nl + nl.join(seq[j : j + w] for j in range(0, len(seq), w)) + nl)
-    return b"".join(recs)
+    out = b"".join(recs)
+    # two more shapes, decided from the content (no draw from the history's own stream): the last line of the file
+    # without its line end, and ambiguity codes other than N (no N anywhere in the file)
+    import zlib
+
+    h = zlib.crc32(out)
+    if h % 4 == 0:
+        out = out[: -len(nl)]
+    if h % 5 == 1:
+        out = out.replace(b"N", b"R")
+    return out
 
 
 def run_history(ctx, scene, hist, rng, case):
